@@ -326,8 +326,8 @@ def _sequence(
     shape: tuple[int, ...],
     mask: tuple[bool, ...],
 ) -> npt.NDArray[np.int_] | range:
-    if fixed_indices is None:
-        return range(prod(shape))
+    if fixed_indices is None:  # one iteration per *external* index (internal axes are filled by one call)
+        return range(prod(external_shape_from_mask(shape, mask)))
     fixed_mask = _mask_fixed_axes(fixed_indices, mapspec, shape, mask)
     assert fixed_mask is not None
     assert len(fixed_mask) == prod(external_shape_from_mask(shape, mask))
